@@ -174,6 +174,7 @@ class FaultModel:
         self.opaque_calls: list[str] = []
         self._rc_cache: dict = {}
         self._spec_memo: dict = {}
+        self._nonterm: dict = {}
         self.cfg_factory = None  # set by cfg.Analysis
         self._nn: frozenset[str] = frozenset()
 
@@ -386,7 +387,10 @@ class FaultModel:
             if r.is_async and not isinstance(parent(c), ast.Await):
                 # coroutine object created, not awaited here (create_task(coro()) / gather) -> raises nothing here
                 return set()
-            return set(self.escape_at_call(c, r, u))
+            out = set(self.escape_at_call(c, r, u))
+            if r.key == u.key and self.nonterminating_recursion(u):
+                out.add(ExcT('RecursionError'))
+            return out
         if r == 'opaque':
             self.opaque_calls.append(f'{u.loc(c)} {U(c.func)}(...)')
             return {ANY_EXCEPTION}
@@ -440,6 +444,22 @@ class FaultModel:
                 if isinstance(v, ast.Call) and call_name(v) in ('create_task', 'ensure_future') and v.args and isinstance(v.args[0], ast.Call):
                     out.append(v.args[0])
         return out
+
+    def nonterminating_recursion(self, u: Unit) -> bool:
+        """A function that calls itself but never reads any of its parameters cannot make progress: whenever the
+        recursive call is reached once it is reached forever (RecursionError).  Contradiction-style rule (a parameter
+        that the recursion is supposed to descend on is ignored)."""
+        cached = self._nonterm.get(u.key)
+        if cached is not None:
+            return cached
+        res = False
+        params = [p for p in u.params() if p not in ('self', 'cls')]
+        self_calls = [c for c in own_nodes_with_lambdas(u.node) if isinstance(c, ast.Call) and isinstance(c.func, ast.Name) and c.func.id == u.node.name]
+        if params and self_calls:
+            reads = {n.id for n in own_nodes_with_lambdas(u.node) if isinstance(n, ast.Name) and isinstance(n.ctx, ast.Load)}
+            res = not any(p in reads for p in params)
+        self._nonterm[u.key] = res
+        return res
 
     def raise_types(self, st: ast.Raise, u: Unit) -> set[ExcT]:
         if (u.module, u.qualname) in SUPPRESSED_RAISE_UNITS:
